@@ -177,7 +177,7 @@ fn rebuild_case(st: &mut Stats, tcs: &[String], s: Settings, r: usize, rng: &mut
 
 /// The fixed batch of cases used for the cross-process and cross-thread comparisons.
 pub fn batch(seed: u64, n: usize) -> Vec<(Vec<String>, Settings)> {
-    let alphabets: Vec<Vec<String>> = ["ab", "abc", "mixed", "classes", "case", "graph"].iter().map(|a| gen::alphabet(a)).collect();
+    let alphabets: Vec<Vec<String>> = ["ab", "abc", "mixed", "classes", "case", "graph", "sigma"].iter().map(|a| gen::alphabet(a)).collect();
     (0..n)
         .map(|i| {
             let mut rng = Rng::new(seed, 0x100_0000 + i as u64);
@@ -197,6 +197,25 @@ pub fn batch(seed: u64, n: usize) -> Vec<(Vec<String>, Settings)> {
             let tcs: Vec<String> = if s.flags & CLASS_MASK != 0 && s.flags & NOEND != 0 { tcs.into_iter().map(|t| t.chars().take(10).collect()).collect() } else { tcs };
             (tcs, s)
         })
+        .chain(
+            // letters whose lower-casing depends on their position (final sigma) or that have several spellings:
+            // every process meets them in another order
+            [
+                vec!["\u{39f}\u{394}\u{39f}\u{3a3}"],
+                vec!["\u{3a3}\u{39f}\u{3a6}\u{399}\u{391}"],
+                vec!["a\u{3a3}", "\u{3a3}a"],
+                vec!["\u{3a3}a", "a\u{3a3}", "\u{3a3}"],
+                vec!["\u{3a3}"],
+                vec!["A\u{3a3} \u{3a3}A"],
+                vec!["\u{130}", "I", "i\u{307}"],
+                vec!["\u{1e9e}\u{df}", "SS"],
+            ]
+            .into_iter()
+            .flat_map(|t| {
+                let t: Vec<String> = t.into_iter().map(String::from).collect();
+                [(t.clone(), Settings::new(CI)), (t.clone(), Settings::new(CI | VERB | NOEND)), (t, Settings::new(0))]
+            }),
+        )
         .collect()
 }
 
@@ -206,8 +225,20 @@ pub fn batch(seed: u64, n: usize) -> Vec<(Vec<String>, Settings)> {
 pub fn child_main(seed: u64, n: usize, threads: usize) -> i32 {
     install_quiet_panic_hook();
     let cases = batch(seed, n);
+    // every child builds the batch in its own order (process-wide state filled in another order)
+    let order_seed: u64 = std::env::args().nth(5).and_then(|s| s.parse().ok()).unwrap_or(0);
     let results: Vec<String> = if threads <= 1 {
-        cases.iter().map(|(t, s)| format!("{:?}", build(t, *s))).collect()
+        let mut order: Vec<usize> = (0..cases.len()).collect();
+        if order_seed % 3 == 2 {
+            order.reverse();
+        } else if order_seed > 0 {
+            Rng::new(order_seed, 0x108_0000).shuffle(&mut order);
+        }
+        let mut out = vec![String::new(); cases.len()];
+        for i in order {
+            out[i] = format!("{:?}", build(&cases[i].0, cases[i].1));
+        }
+        out
     } else {
         let barrier = std::sync::Barrier::new(threads);
         let out = std::sync::Mutex::new(vec![String::new(); cases.len()]);
@@ -334,7 +365,22 @@ fn cross_process(ctx: &Ctx, st: &mut Stats) {
     for p in 0..procs {
         // half of the children run 16 threads behind a barrier
         let threads = if p % 2 == 0 { 1 } else { 16 };
-        children.push((threads, Command::new(&exe).args(["__c10_child", &ctx.seed().to_string(), &n.to_string(), &threads.to_string()]).stdout(Stdio::piped()).stderr(Stdio::null()).spawn()));
+        // every child gets its own build order and, for every other one, a different process environment
+        let mut cmd = Command::new(&exe);
+        cmd.args(["__c10_child", &ctx.seed().to_string(), &n.to_string(), &threads.to_string(), &p.to_string()]).stdout(Stdio::piped()).stderr(Stdio::null());
+        match p % 4 {
+            1 => {
+                cmd.env("NO_COLOR", "1").env("TERM", "dumb").env("LC_ALL", "C");
+            }
+            2 => {
+                cmd.env("LC_ALL", "tr_TR.UTF-8").env("LANG", "tr_TR.UTF-8").env("CLICOLOR_FORCE", "1");
+            }
+            3 => {
+                cmd.env_remove("HOME").env("COLUMNS", "12").env("RUST_BACKTRACE", "full").current_dir("/");
+            }
+            _ => {}
+        }
+        children.push((threads, cmd.spawn()));
     }
     for (threads, ch) in children {
         let Ok(ch) = ch else {
